@@ -72,6 +72,7 @@ package graph
 //@   ensures  forall(m, Outer, imp(old(allocated(m)), unchanged(m)))
 //@   ensures  forall(m, HashM, imp(old(allocated(m)), unchanged(m)))
 //@   assigns  Graph.adjacencyOut, Graph.adjacencyIn, Graph.hash, Outer, HashM
+//@   modifies g, g.adjacencyOut, g.adjacencyIn, g.hash, forall(m, Inner, infoot(g, m))
 
 //@ func (*Graph).Add
 //@   requires wf0(g)
@@ -85,6 +86,7 @@ package graph
 //@   ensures  [foot] footGrows(g)
 //@   ensures  [inner-stable] innerStable(g)
 //@   assigns  Graph.adjacencyOut, Graph.adjacencyIn, Graph.hash, Outer, HashM, Inner
+//@   modifies g, g.adjacencyOut, g.adjacencyIn, g.hash, forall(m, Inner, infoot(g, m))
 
 //@ func (*Graph).AddOverwrite
 //@   requires wf0(g)
@@ -98,6 +100,7 @@ package graph
 //@   ensures  [foot] footGrows(g)
 //@   ensures  [inner-stable] innerStable(g)
 //@   assigns  Graph.adjacencyOut, Graph.adjacencyIn, Graph.hash, Outer, HashM, Inner
+//@   modifies g, g.adjacencyOut, g.adjacencyIn, g.hash, forall(m, Inner, infoot(g, m))
 
 //@ func (*Graph).Remove
 //@   requires wf0(g)
@@ -110,6 +113,7 @@ package graph
 //@   ensures  [foot] footGrows(g)
 //@   ensures  [inner-stable] innerStable(g)
 //@   assigns  Outer, HashM, Inner
+//@   modifies g, g.adjacencyOut, g.adjacencyIn, g.hash, forall(m, Inner, infoot(g, m))
 //@   loop 1 invariant g.adjacencyOut == old(g.adjacencyOut) && g.adjacencyIn == old(g.adjacencyIn) && g.hash == old(g.hash)
 //@   loop 1 invariant rmap1 == old(g.adjacencyOut[hc(v)]) && h == hc(v)
 //@   loop 1 invariant unchanged(g.hash) && unchanged(g.adjacencyOut) && unchanged(g.adjacencyIn)
@@ -133,6 +137,7 @@ package graph
 //@   ensures  wf(g) && sameRefs(g) && sameVerts(g) && sameEdges(g) && frameG(g)
 //@   ensures  result == old(g.hash[id])
 //@   assigns  Graph.adjacencyOut, Graph.adjacencyIn, Graph.hash, Outer, HashM
+//@   modifies g, g.adjacencyOut, g.adjacencyIn, g.hash, forall(m, Inner, infoot(g, m))
 
 //@ func (*Graph).AddEdge
 //@   requires wf0(g)
@@ -144,6 +149,7 @@ package graph
 //@   ensures  [foot] footGrows(g)
 //@   ensures  [inner-stable] innerStable(g)
 //@   assigns  Graph.adjacencyOut, Graph.adjacencyIn, Graph.hash, Outer, HashM, Inner
+//@   modifies g, g.adjacencyOut, g.adjacencyIn, g.hash, forall(m, Inner, infoot(g, m))
 
 //@ func (*Graph).AddEdgeWeighted
 //@   requires wf0(g)
@@ -155,6 +161,7 @@ package graph
 //@   ensures  [foot] footGrows(g)
 //@   ensures  [inner-stable] innerStable(g)
 //@   assigns  Graph.adjacencyOut, Graph.adjacencyIn, Graph.hash, Outer, HashM, Inner
+//@   modifies g, g.adjacencyOut, g.adjacencyIn, g.hash, forall(m, Inner, infoot(g, m))
 
 //@ func (*Graph).RemoveEdge
 //@   requires wf0(g)
@@ -165,6 +172,7 @@ package graph
 //@   ensures  [foot] footGrows(g)
 //@   ensures  [inner-stable] innerStable(g)
 //@   assigns  Graph.adjacencyOut, Graph.adjacencyIn, Graph.hash, Outer, HashM, Inner
+//@   modifies g, g.adjacencyOut, g.adjacencyIn, g.hash, forall(m, Inner, infoot(g, m))
 
 // ---------------------------------------------------------------- queries
 
@@ -189,6 +197,7 @@ package graph
 //@   ensures  [sound] forall(i, int, imp(0 <= i && i < len(result), exists(k, any, has(g.hash, k) && result[i] == g.hash[k])))
 //@   ensures  [complete] forall(k, any, imp(has(g.hash, k), exists(i, int, 0 <= i && i < len(result) && result[i] == g.hash[k])))
 //@   assigns  []Vertex
+//@   modifies nothing
 //@   loop 1 invariant sliceskept([]Vertex) && fresh(result)
 //@   loop 1 invariant len(result) == len(seen1) && soff(result) == 0
 //@   loop 1 invariant forall(k, any, imp(in(k, seen1), has(g.hash, k)))
@@ -203,6 +212,7 @@ package graph
 //@   ensures  [sound] forall(i, int, imp(0 <= i && i < len(result), exists(b, any, edge(g, hc(v), b) && result[i] == g.hash[b])))
 //@   ensures  [complete] forall(b, any, imp(edge(g, hc(v), b), exists(i, int, 0 <= i && i < len(result) && result[i] == g.hash[b])))
 //@   assigns  []Vertex
+//@   modifies nothing
 //@   loop 1 invariant sliceskept([]Vertex) && fresh(result)
 //@   loop 1 invariant len(result) == len(seen1) && soff(result) == 0 && rmap1 == edges && edges == g.adjacencyOut[hc(v)]
 //@   loop 1 invariant forall(k, any, imp(in(k, seen1), has(edges, k)))
@@ -218,6 +228,7 @@ package graph
 //@   ensures  [sound] forall(i, int, imp(0 <= i && i < len(result), exists(a, any, edge(g, a, hc(v)) && result[i] == g.hash[a])))
 //@   ensures  [complete] forall(a, any, imp(edge(g, a, hc(v)), exists(i, int, 0 <= i && i < len(result) && result[i] == g.hash[a])))
 //@   assigns  []Vertex
+//@   modifies nothing
 //@   loop 1 invariant sliceskept([]Vertex) && fresh(result)
 //@   loop 1 invariant len(result) == len(seen1) && soff(result) == 0 && rmap1 == edges && edges == g.adjacencyIn[hc(v)]
 //@   loop 1 invariant forall(k, any, imp(in(k, seen1), has(edges, k)))
@@ -232,6 +243,7 @@ package graph
 //@   ensures  fresh(result) && sameRefs(g) && sameVerts(g) && sameEdges(g) && frameG(g)
 //@   ensures  forall(x, *Graph, imp(old(allocated(x)) && x != g, x.adjacencyOut == old(x.adjacencyOut) && x.adjacencyIn == old(x.adjacencyIn) && x.hash == old(x.hash)))
 //@   assigns  Graph.adjacencyOut, Graph.adjacencyIn, Graph.hash, Outer, HashM
+//@   modifies g, g.adjacencyOut, g.adjacencyIn, g.hash, forall(m, Inner, infoot(g, m))
 
 // Copy: same view, disjoint footprint, original untouched.
 //@ func (*Graph).Copy
@@ -243,6 +255,7 @@ package graph
 //@   ensures  [same-edges] forall(a, any, b, any, edge(result, a, b) == edge(g, a, b) && imp(edge(g, a, b), wgt(result, a, b) == wgt(g, a, b)))
 //@   ensures  [original-untouched] heapKept()
 //@   assigns  Graph.adjacencyOut, Graph.adjacencyIn, Graph.hash, Outer, HashM, Inner
+//@   modifies nothing
 //@   loop 1 invariant heapKept()
 //@   loop 1 invariant copied(g2.adjacencyOut, g.adjacencyOut, seen1)
 //@   loop 1 invariant forall(k, any, imp(in(k, seen1), has(g.adjacencyOut, k)))
@@ -388,6 +401,7 @@ package graph
 //@   ensures  [relaxed] forall(u, any, v, any, imp(edge(g, u, v), has(distTo, v) && distTo[v] <= distTo[u] + wgt(g, u, v)))
 //@   ensures  [graph-kept] heapKept() && fresh(distTo) && fresh(edgeTo)
 //@   assigns  Inner, HashM
+//@   modifies nothing
 //@   loop 1 invariant heapKept() && fresh(distTo) && fresh(edgeTo) && distTo != nil && edgeTo != nil
 //@   loop 1 invariant forall(v, any, has(edgeTo, v) == has(distTo, v))
 //@   loop 1 invariant forall(v, any, imp(has(distTo, v), has(g.hash, hc(edgeTo[v])) && edgeTo[v] == g.hash[hc(edgeTo[v])] && tpos(hc(edgeTo[v])) < idx1 && edge(g, hc(edgeTo[v]), v) && distTo[v] == distTo[hc(edgeTo[v])] + wgt(g, hc(edgeTo[v]), v)))
@@ -503,6 +517,7 @@ package graph
 //@   ensures  [edges-forward] forall(a, any, b, any, imp(edge(old(g), a, b), kpos[a] < kpos[b]))
 //@   ensures  [original-untouched] heapKept()
 //@   assigns  Graph.adjacencyOut, Graph.adjacencyIn, Graph.hash, Outer, HashM, Inner, []Vertex, []interface{}, kpos, spos
+//@   modifies nothing
 //@   after "S = append(S, v)" set spos = update(spos, v, len(S)-1)
 //@   after "L = append(L, g.hash[n])" set kpos = update(kpos, n, len(L)-1)
 //@   after "S = append(S, m)" set spos = update(spos, m, len(S)-1)
@@ -613,6 +628,7 @@ package graph
 //@   ensures  [non-nil] forall(i, int, imp(0 <= i && i < len(result), result[i] != nil))
 //@   ensures  [frame] sliceskept([]Vertex) && (fresh(result) || len(result) == 0)
 //@   assigns  []Vertex
+//@   modifies nothing
 //@   loop 1 invariant sliceskept([]Vertex) && (fresh(result) || result == nil) && soff(result) == 0
 //@   loop 1 invariant imp(len(result) > 0, result[0] == target) && imp(len(result) == 0, current == target)
 //@   loop 1 invariant forall(i, int, imp(0 <= i && i < len(result), result[i] != nil))
@@ -674,6 +690,7 @@ package graph
 //@   ensures  [S4-unreachable] forall(k, any, imp(has(g.hash, k) && !in(k, fin), edgeTo[k] == nil || !in(hc(edgeTo[k]), fin)))
 //@   ensures  [graph-kept] graphKept() && fresh(distTo) && fresh(edgeTo)
 //@   assigns  ItemM, VisitM, Inner, HashM, []*distQueueItem, *distQueue, distQueueItem.v, distQueueItem.distance, distQueueItem.previous, distQueueItem.index, distQueueItem.snap, fin, frozen, cnt
+//@   modifies nothing
 //@   before "visited := map" set fin = emptyset(any)
 //@   before "visited := map" set frozen = false
 //@   before "visited := map" set cnt = 0
